@@ -19,7 +19,8 @@ reg(Prop(
          ' sequence_iteration with an action that throws at its t-th call (every removal mask): state afterwards as the erase-as-you-go loop leaves it. container::join over sets with stateful / function-pointer comparators. int_range over signed char / unsigned char / short with more elements than the type holds through map (vector, deque), map_optional, map_concat, fold, loop.'
          ' Single-pass input ranges: std::istream_iterator (loop, fold, map, contains_if) and a shared-queue iterator (loop_break, fold_break: visits, value, and what is left in the source after the break).'
          ' join over std::list<std::any> and std::vector<std::any> (lvalue operands).'
-         ' map_iteration_second with an action that writes through the reference it is given.',
+         ' map_iteration_second with an action that writes through the reference it is given.'
+         ' fold_break whose step hands the state back by reference (std::pair<loop, State &&>); map_optional / map_concat into a vector from istream_iterator and shared-queue ranges.',
     assumptions=COMMON_ASSUMPTIONS + [
         'unique/unique_if are judged against the adjacent-duplicates reading (std::unique) with the 5 equivalence relations over {0,1,2}; arbitrary relations are observed only',
         'binary_search/equal_range are judged on inputs that are partitioned with respect to the probe value (every sorted input is); other inputs are skipped and counted',
